@@ -140,6 +140,7 @@ def selectMembers (fuel : Nat) (st : St) (members : List Node) (index : Node) : 
       | .mk .tsLitType _ [.mk .str _ _] => true
       | .mk .tsUnion _ _ => true
       | .mk .tsTypeRef _ _ => true
+      | .mk .tsParen _ _ => true
       | _ => false
     if !isKeyish then ([], st) else
     let (keys, st) := resolveStrings fuel st idx
